@@ -22,11 +22,11 @@ type c43Member struct {
 }
 
 type c43Obs struct {
-	r       *verifkit.Run
-	flagged map[string]bool
-	mem     map[string]*c43Member
-	rebStart time.Duration // when the stored generation last changed (a rebalance began)
-	lastBump time.Duration // latest join reply since then
+	r                    *verifkit.Run
+	flagged              map[string]bool
+	mem                  map[string]*c43Member
+	rebStart             time.Duration // when the stored generation last changed (a rebalance began)
+	lastBump             time.Duration // latest join reply since then
 	rmin, rmax, interval time.Duration
 
 	expiredOK, laggardOK, survivedByHeartbeat int
@@ -226,7 +226,7 @@ func TestVerifC43(t *testing.T) {
 	p.Rebals = []int64{1500, 3000, 6000, 12000}
 	p.Cleanups = []int64{100, 250, 500}
 	p.MixRebal = true
-	n := r.N(600, 30000)
+	n := r.N(1000, 30000)
 	seen := func(w *gWorld, ev *gEvent) { r.Seen("group_states", w.stateSig(ev.After)) }
 	account := func(ci int, w *gWorld, o *c43Obs) {
 		if w.blocked {
